@@ -68,9 +68,12 @@ def utype(u):
         return "num" if "num" in (a, b) else "int"
     if k == "truediv":
         return "num"
-    if k in ("floordiv", "mod"):
+    if k == "floordiv":
         a, b = utype(u[1]), utype(u[2])
         return "num" if "num" in (a, b) else "int"
+    if k == "mod":
+        # no entry for % in Integer / Numeric._expression_adaptations: the left operand's type
+        return utype(u[1])
     if k == "neg":
         return utype(u[1])
     if k == "concat":
@@ -78,7 +81,9 @@ def utype(u):
     if k in CMP or k in ISOPS or k in LIKES or k in STROPS or k in ("between", "and", "or", "not", "in", "notin", "tin", "tnotin"):
         return "bool"
     if k == "case":
-        for _, r in u[2]:
+        # Case.__init__: the type of the LAST result that is not NullType, else of else_
+        # (type inference is SQLAlchemy's documented rule; it decides how `//` is spelled)
+        for _, r in reversed(u[2]):
             t = utype(r)
             if t != "null":
                 return t
@@ -86,7 +91,12 @@ def utype(u):
     if k == "cast":
         return u[1]
     if k == "coalesce":
-        return utype(u[1][0])
+        # ReturnTypeFromArgs: the first argument that is not NullType
+        for c in u[1]:
+            t = utype(c)
+            if t != "null":
+                return t
+        return "null"
     if k == "subq":
         return utype(u[1])
     raise ValueError(k)
@@ -1339,9 +1349,10 @@ def reconcile_render(ctx, cases, impl_out, model_out, pid):
 
 
 # --------------------------------------------------------------------------- the theorem's fragment
-def frag_num(rng, d):
-    """numeric tree of the Lean fragment NumU over the integer columns: + - * %, unary minus,
-    scalar subquery, cast(Integer / Numeric), coalesce, searched and simple case"""
+def frag_num(rng, d, div="all"):
+    """numeric tree of the Lean fragment NumU over the integer columns: + - * % / //, unary minus,
+    scalar subquery, cast(Integer / Numeric), coalesce, searched and simple case.
+    div="floor": without true division (whose value is a float: outside the Lean value model)"""
     if d <= 0 or rng.random() < 0.2:
         x = rng.random()
         if x < 0.6:
@@ -1349,33 +1360,51 @@ def frag_num(rng, d):
         if x < 0.9:
             return ["li", rng.choice(INT_LITS)]
         return ["subq", ["col", rng.choice(["ia", "ib", "ic"])]]
-    k = rng.choice(["add", "sub", "mul", "mod", "neg", "add", "mul", "case", "case", "cast", "coalesce"])
+    k = rng.choice(["add", "sub", "mul", "mod", "neg", "add", "mul", "case", "case", "cast", "coalesce",
+                    "floordiv", "floordiv", "truediv" if div == "all" else "sub"])
     if k == "neg":
-        return ["neg", frag_num(rng, d - 1)]
+        return ["neg", frag_num(rng, d - 1, div)]
     if k == "cast":
-        return ["cast", rng.choice(["int", "num"]), frag_num(rng, d - 1)]
+        return ["cast", rng.choice(["int", "num"]), frag_num(rng, d - 1, div)]
     if k == "coalesce":
-        return ["coalesce", [frag_num(rng, d - 1) for _ in range(rng.choice([2, 2, 3]))]]
+        return ["coalesce", [frag_num(rng, d - 1, div) for _ in range(rng.choice([2, 2, 3]))]]
     if k == "case":
         n = rng.choice([1, 2, 2, 3])
         if rng.random() < 0.6:
             value = None
-            whens = [[frag_bool(rng, min(d - 1, 2)), frag_num(rng, d - 1)] for _ in range(n)]
+            whens = [[frag_bool(rng, min(d - 1, 2), div, "str" if div == "floor" else "all"), frag_num(rng, d - 1, div)] for _ in range(n)]
         else:
-            value = frag_num(rng, d - 1)
-            whens = [[frag_num(rng, min(d - 1, 1)), frag_num(rng, d - 1)] for _ in range(n)]
-        return ["case", value, whens, frag_num(rng, d - 1) if rng.random() < 0.6 else None]
-    return [k, frag_num(rng, d - 1), frag_num(rng, d - 1)]
+            value = frag_num(rng, d - 1, div)
+            whens = [[frag_num(rng, min(d - 1, 1), div), frag_num(rng, d - 1, div)] for _ in range(n)]
+        return ["case", value, whens, frag_num(rng, d - 1, div) if rng.random() < 0.6 else None]
+    return [k, frag_num(rng, d - 1, div), frag_num(rng, d - 1, div)]
 
 
-def frag_bool(rng, d):
+def frag_str(rng, d, div="all", opnds="all"):
+    """string-valued tree of the Lean fragment StrU: string columns / literals and concatenations;
+    opnds="all": an operand of a concatenation may be a numeric tree (finding F1's cells on SQLite)"""
+    if d <= 0 or rng.random() < 0.3:
+        return ["col", rng.choice(["sa", "sb"])] if rng.random() < 0.6 else ["ls", rng.choice(STR_LITS)]
+
+    def opnd():
+        if opnds == "all" and rng.random() < 0.3:
+            return frag_num(rng, d - 1, div)
+        return frag_str(rng, d - 1, div, opnds)
+    return ["concat", opnd(), opnd()]
+
+
+def frag_bool(rng, d, div="all", opnds="all"):
     """boolean tree of the Lean fragment BoolU (without is_/is_not between general operands)"""
     if d <= 0 or rng.random() < 0.25:
         x = rng.random()
         if x < 0.2:
-            return [rng.choice(["eq", "ne", "is", "isnot"]), frag_num(rng, 1), ["null"]]
-        return [rng.choice(CMP), frag_num(rng, rng.randint(0, 2)), frag_num(rng, rng.randint(0, 2))]
+            return [rng.choice(["eq", "ne", "is", "isnot"]), frag_num(rng, 1, div), ["null"]]
+        if x < 0.4:
+            if rng.random() < 0.2:
+                return [rng.choice(["eq", "ne", "is", "isnot"]), frag_str(rng, 1, div, opnds), ["null"]]
+            return [rng.choice(CMP), frag_str(rng, rng.randint(0, 2), div, opnds), frag_str(rng, rng.randint(0, 2), div, opnds)]
+        return [rng.choice(CMP), frag_num(rng, rng.randint(0, 2), div), frag_num(rng, rng.randint(0, 2), div)]
     k = rng.choice(["and", "or", "not", "and", "or"])
     if k == "not":
-        return ["not", frag_bool(rng, d - 1)]
-    return [k, [frag_bool(rng, d - 1) for _ in range(rng.choice([1, 2, 2, 3]))]]
+        return ["not", frag_bool(rng, d - 1, div, opnds)]
+    return [k, [frag_bool(rng, d - 1, div, opnds) for _ in range(rng.choice([1, 2, 2, 3]))]]
